@@ -517,8 +517,8 @@ impl Memfs {
             _ => None,
         };
 
-        // Copy into requires a pre-existing destination directory
-        let copy_into = self._is_dir(guard, &dst_root);
+        // Copy into requires a pre-existing destination directory, links excluded
+        let copy_into = self._is_real_dir(guard, &dst_root);
 
         // Iterate over source taking into account link following
         let src_root = self._clone_entry(guard, src_root)?.follow(cp.follow);
@@ -1731,7 +1731,7 @@ impl VirtualFileSystem for Memfs {
         let mut guard = self.write_guard();
         let src_root = self._abs(&guard, src)?;
         let dst_root = self._abs(&guard, dst)?;
-        let copy_into = self._is_dir(&guard, &dst_root);
+        let copy_into = self._is_real_dir(&guard, &dst_root);
 
         // Validate everything up front so that a failed move leaves the filesystem untouched
         if !guard.contains_entry(&src_root) {
@@ -1753,12 +1753,15 @@ impl VirtualFileSystem for Memfs {
         let src_is_dir = guard.get_entry(&src_root).map(|x| x.is_dir() && !x.is_symlink()).unwrap_or(false);
         if let Some(x) = guard.get_entry(&target) {
             if x.is_dir() && !x.is_symlink() {
-                return Err(PathError::exists_already(target).into());
+                // like rename: only an empty directory can be replaced and only by a directory
+                if !src_is_dir || x.files.as_ref().map(|y| !y.is_empty()).unwrap_or(false) {
+                    return Err(PathError::exists_already(target).into());
+                }
             } else if src_is_dir {
                 return Err(PathError::is_not_dir(target).into());
             }
 
-            // Replace the destination file or link
+            // Replace the destination
             guard.remove_file(&target);
             guard.remove_entry(&target);
         }
